@@ -287,6 +287,7 @@ fn worker(args: &[String]) -> i32 {
         "fired": map_json(&fired), "probes": map_json(&probes), "outcome_categories": map_json(&cats), "op_kinds": map_json(&op_kinds),
         "strategies": map_json(&strategies), "counters": map_json(&counters),
         "sim_time_ns": sim_time_ns.to_string(), "max_steps_in_a_run": max_steps,
+        "provider_reset_unavailable": props::RESET_UNAVAILABLE.load(std::sync::atomic::Ordering::Relaxed),
         "samples": samples, "violations": violations, "unlisted_violations": unlisted,
         "known_hits": map_json(&known_hits),
     });
